@@ -14,6 +14,10 @@ TOL = 1e-6
 REWRITING = ("cg", "rs", "swap", "ow", "ag", "pl", "rc", "semi")
 ENCODING = ("ls", "oh")
 KINDS = REWRITING + ENCODING
+# wrappers of the package (and a user-style pass-through subclass of KDWrapper) that do not rewrite labels; they only appear INSIDE stacks,
+# between a wrapper under judgement and the dataset: plain = `class PassThrough(KDWrapper): pass`, xt = XTransformWrapper(identity),
+# shuf / sub / rep = ShuffleWrapper / SubsetWrapper / RepeatWrapper (KDSubset based: they reorder / select samples)
+NEUTRAL = ("plain", "xt", "shuf", "sub", "rep")
 NAMES = {"cg": "ClassGroupsWrapper", "rs": "RandomSuperclassWrapper", "swap": "SwapLabelWrapper", "ow": "OverwriteClassesWrapper",
          "ag": "AllgatherClassWrapper", "pl": "KDPseudoLabelWrapper", "rc": "KDRandomClassWrapper", "semi": "SemiWrapper",
          "ls": "LabelSmoothingWrapper", "oh": "OneHotWrapper"}
@@ -241,7 +245,7 @@ def build(case, ds, tape=None):
             if len(ds):
                 w.getitem_class(0)
             w.seed = case["seed"]
-            w.num_classes = case["nc"] if case.get("explicit_nc", True) else ds.getshape("class")[0]
+            w.num_classes = case["nc"] if case.get("explicit_nc", True) else ds.getshape_class()[0]
             if tape is not None:
                 del tape[:]
             w.mode = case["mode"]
@@ -311,24 +315,157 @@ def observe(kind, w, n, tape, per_call=None):
         out["shape"] = int(sh[0]) if isinstance(sh, tuple) and len(sh) == 1 else repr(sh)
     except Exception as e:
         out["shape"] = exc_kind(e)
+    out["forms"] = shape_forms(w)
     return out
 
 
+def shape_forms(w):
+    """the other public spellings of the class-shape query (KDDataset / KDWrapper API): every one of them announces the label range"""
+    out = {}
+    for name, fn in (("getshape('class')", lambda: w.getshape("class")), ("getdim_class()", lambda: (w.getdim_class(),)),
+                     ("getdim('class')", lambda: (w.getdim("class"),))):
+        try:
+            sh = fn()
+            out[name] = int(sh[0]) if isinstance(sh, tuple) and len(sh) == 1 else repr(sh)
+        except Exception as e:
+            out[name] = exc_kind(e)
+    return out
+
+
+# ---- stacks: the wrapper under judgement sits on other wrappers of the package instead of directly on the dataset ----
+def _identity(x):
+    return x
+
+
+def build_level(spec, ds):
+    """one inner level of a stack: a label wrapper (same constructor path as the judged one) or a neutral wrapper"""
+    k = spec["w"]
+    if k in KINDS:
+        return build(spec, ds)
+    if k == "plain":
+        if "plain" not in _DS:
+            from kappadata.datasets.kd_wrapper import KDWrapper
+
+            class PassThrough(KDWrapper):
+                pass
+
+            _DS["plain"] = PassThrough
+        return _DS["plain"](ds)
+    if k == "xt":
+        from kappadata.wrappers.sample_wrappers.x_transform_wrapper import XTransformWrapper
+        return XTransformWrapper(ds, transform=_identity)
+    if k == "shuf":
+        from kappadata.wrappers.dataset_wrappers.shuffle_wrapper import ShuffleWrapper
+        return ShuffleWrapper(ds, seed=spec["seed"])
+    if k == "sub":
+        from kappadata.wrappers.dataset_wrappers.subset_wrapper import SubsetWrapper
+        return SubsetWrapper(ds, indices=list(spec["indices"]))
+    if k == "rep":
+        from kappadata.wrappers.dataset_wrappers.repeat_wrapper import RepeatWrapper
+        return RepeatWrapper(ds, repetitions=spec["rep"])
+    raise ValueError(k)
+
+
+def observe_level(w):
+    """what a wrapper stacked on `w` can see of it: labels per sample and in bulk, announced class count, the other item"""
+    n = len(w)
+    raw = []
+    for i in range(n):
+        try:
+            raw.append(w.getitem_class(i))
+        except Exception as e:
+            raw.append(e)
+    out = {"items": [exc_kind(v) if isinstance(v, Exception) else canon_item(v) for v in raw],
+           "pyint": all(type(v) is int for v in raw)}
+    try:
+        out["bulk"] = canon_bulk(w.getall_class())
+    except Exception as e:
+        out["bulk"] = exc_kind(e)
+    try:
+        sh = w.getshape_class()
+        out["shape"] = int(sh[0]) if isinstance(sh, tuple) and len(sh) == 1 else repr(sh)
+    except Exception as e:
+        out["shape"] = exc_kind(e)
+    out["forms"] = shape_forms(w)
+    try:
+        out["x"] = [w.getitem_x(i) for i in range(n)]
+    except Exception as e:
+        out["x"] = exc_kind(e)
+    return out
+
+
+def usable_level(obs):
+    """a coherent int-labelled dataset in the sense of the assumptions: this is what the next wrapper may be judged against"""
+    return (isinstance(obs.get("shape"), int) and obs["shape"] >= 1 and isinstance(obs.get("x"), list)
+            and all(isinstance(v, int) for v in obs["items"]) and obs["bulk"] == obs["items"])
+
+
+def build_under(case, ds):
+    """builds the inner levels of case['under'] bottom-up around `ds` (no recording proxies: the tape belongs to the judged wrapper).
+    returns (top-most inner dataset or None, levels); a level = {spec, below: {labels, C, x}, ctor, obs}"""
+    C, labels = case["C"], list(case["labels"])
+    below = {"labels": labels, "C": C, "x": [("x", i) for i in range(len(labels))], "pyint": True}
+    levels, cur = [], ds
+    for spec in case.get("under") or []:
+        lv = {"spec": spec, "below": below}
+        levels.append(lv)
+        try:
+            cur = build_level(spec, cur)
+        except Exception as e:
+            lv["ctor"], lv["msg"] = exc_kind(e), str(e)[:120]
+            return None, levels
+        lv["ctor"] = "ok"
+        try:
+            lv["obs"] = observe_level(cur)
+        except Exception as e:
+            lv["obs"] = {"items": [exc_kind(e)], "bulk": exc_kind(e), "shape": exc_kind(e), "forms": {}, "x": exc_kind(e), "pyint": False}
+        if not usable_level(lv["obs"]):
+            return None, levels
+        below = {"labels": lv["obs"]["items"], "C": lv["obs"]["shape"], "x": lv["obs"]["x"], "pyint": lv["obs"]["pyint"]}
+    return cur, levels
+
+
+def effective(case, real):
+    """the case as the judged wrapper sees it: labels / class count handed out by the stack below it"""
+    eff = real.get("eff")
+    if not case.get("under") or eff is None:
+        return case
+    c = dict(case)
+    c["labels"], c["C"] = eff["labels"], eff["C"]
+    return c
+
+
 def run_real(case):
-    """{'ctor', 'items', 'bulk', 'shape', 'tape', 'calls', 'others', 'again'}"""
+    """{'ctor', 'items', 'bulk', 'shape', 'forms', 'tape', 'calls', 'others', 'again'} (+ 'levels', 'eff' for a stack case;
+    ctor = 'under:...' when the stack below the judged wrapper could not be built / is no coherent int-labelled dataset)"""
     kind, labels, C = case["w"], case["labels"], case["C"]
-    n = len(labels)
     scramble(case.get("g", 0))
     tape, calls = [], []
     # every second case wraps a dataset that hands out its STORED label list from getall_class (`return self.targets`):
     # a wrapper that edits a bulk result in place then changes the wrapped dataset (and every other wrapper over it)
-    ds = dataset(labels, C, alias=case.get("g", 0) % 2 == 1)
+    root = dataset(labels, C, alias=case.get("g", 0) % 2 == 1)
     res = {}
+    ds, expect_x = root, [("x", i) for i in range(len(labels))]
+    if case.get("under"):
+        ds, levels = build_under(case, root)
+        res["levels"] = levels
+        if ds is None:
+            res.update(ctor="under:unusable", tape=tape)
+            return res
+        top = levels[-1]["obs"]
+        if kind in ENCODING and not top["pyint"]:
+            # the encoders are specified for python-int labels (assumption "labels are ints"); numpy ints from the stack are refused by design
+            res.update(ctor="under:non-python-int-labels", tape=tape)
+            return res
+        res["eff"] = {"labels": top["items"], "C": top["shape"]}
+        expect_x = top["x"]
+    n = len(expect_x)
     with recording(kind, tape):
         try:
             w = build(case, ds, tape)
         except Exception as e:
-            return {"ctor": exc_kind(e), "tape": tape, "msg": str(e)[:120]}
+            res.update(ctor=exc_kind(e), tape=tape, msg=str(e)[:120])
+            return res
         res["ctor"] = "ok"
         res["ctor_tape"] = list(tape)
         res.update(observe(kind, w, n, tape, calls))
@@ -353,20 +490,31 @@ def run_real(case):
         if len(w) != n:
             others.append(f"len {len(w)} != {n}")
         for i in range(n):
-            if w.getitem_x(i) != ("x", i):
+            if w.getitem_x(i) != expect_x[i]:
                 others.append(f"x[{i}] = {w.getitem_x(i)!r}")
-        if ds.classes != list(labels):
-            others.append(f"wrapped dataset's labels changed to {ds.classes}")
-        if ds.getshape_class() != (C,):
+        if root.classes != list(labels):
+            others.append(f"wrapped dataset's labels changed to {root.classes}")
+        if root.getshape_class() != (C,):
             others.append("wrapped dataset's class shape changed")
+        if case.get("under"):
+            # the stack below was read before the judged wrapper was built: it must still hand out the same labels / class count
+            now = observe_level(ds)
+            for key in ("items", "bulk", "shape"):
+                if now[key] != top[key]:
+                    others.append(f"wrapped stack's {key} changed from {top[key]} to {now[key]}")
     except Exception as e:
         others.append(f"{type(e).__name__}: {e}")
     res["others"] = others
-    # equal constructor arguments (incl. seed), different global RNG state: a second object, no proxies
+    # equal constructor arguments (incl. seed), different global RNG state: a second object (a second stack), no proxies
     if seeded(case):
         scramble(case.get("g", 0) + 101)
         try:
-            w2 = build(case, dataset(labels, C))
+            ds2 = dataset(labels, C)
+            if case.get("under"):
+                ds2, lv2 = build_under(case, ds2)
+                if ds2 is None:
+                    raise RuntimeError("second construction of the stack is not usable")
+            w2 = build(case, ds2)
             o2 = observe(kind, w2, n, [])
             res["again"] = {"items": o2["items"], "bulk": o2["bulk"]}
         except Exception as e:
@@ -377,8 +525,12 @@ def run_real(case):
 def seeded(case):
     """the mapping is promised to be a function of the constructor arguments: no draw from the process-global state"""
     k = case["w"]
-    if k in ("cg", "rs", "swap", "semi", "rc"):
+    if not all(seeded(u) for u in case.get("under") or []):
+        return False
+    if k in ("cg", "rs", "swap", "semi", "rc", "shuf"):
         return case.get("seed") is not None
+    if k in NEUTRAL:
+        return True
     if k == "pl":
         return case["topk"] is None or case.get("seed") is not None
     return True
@@ -542,52 +694,102 @@ def in_domain(case):
     return False
 
 
-def case_tag(case):
-    c = {k: v for k, v in case.items() if k not in ("soft", "g")}
-    if case.get("soft") is not None:
-        c["soft"] = [[round(a / b, 3) for a, b in r] for r in case["soft"]]
+def _spec_tag(c):
+    c = {k: v for k, v in c.items() if k not in ("soft", "g", "under")}
     return " ".join(f"{k}={v}" for k, v in c.items())
 
 
+def case_tag(case):
+    c = {k: v for k, v in case.items() if k not in ("soft", "g", "under")}
+    if case.get("soft") is not None:
+        c["soft"] = [[round(a / b, 3) for a, b in r] for r in case["soft"]]
+    out = " ".join(f"{k}={v}" for k, v in c.items())
+    if case.get("under"):
+        out += " stacked on (bottom-up) " + " | ".join(f"[{_spec_tag(u)}]" for u in case["under"])
+    return out
+
+
 def oracle(case, real):
-    """Failure or None"""
+    """Failure or None. A stack case judges every label-rewriting level against the (observed) dataset it wraps, bottom-up, then the
+    top wrapper against the labels / class count handed out by the stack below it."""
+    if not case.get("under"):
+        return judge(case, real, case, "")
+    f = None
+    for j, lv in enumerate(real.get("levels") or []):
+        spec, below = lv["spec"], lv["below"]
+        if spec["w"] not in REWRITING:
+            continue
+        lcase = dict(spec, labels=below["labels"], C=below["C"])
+        if lv["ctor"] != "ok":
+            lreal = {"ctor": lv["ctor"], "msg": lv.get("msg")}
+        else:
+            obs = lv["obs"]
+            others = []
+            if len(obs["items"]) != len(below["labels"]):
+                others.append(f"len {len(obs['items'])} != {len(below['labels'])}")
+            elif obs["x"] != below["x"]:
+                others.append(f"x = {obs['x']!r}")
+            lreal = {"ctor": "ok", "items": obs["items"], "bulk": obs["bulk"], "shape": obs["shape"], "forms": obs["forms"], "others": others,
+                     "calls": []}
+        f = judge(lcase, lreal, case, f" [level {j} ({NAMES[spec['w']]}) of the stack]")
+        if f is not None:
+            break
+    if f is None and real["ctor"].startswith("under:"):
+        return None
+    if f is None:
+        f = judge(effective(case, real), real, case, "")
+    if f is not None:
+        f.key += "@stack"
+    return f
+
+
+def judge(case, real, orig, where):
+    """the property statement for one wrapper: `case` = its configuration plus the labels / class count of the dataset it wraps,
+    `real` = what the real object answered, `orig` = the replayable input the Failure carries"""
     if not in_domain(case):
         return None
     k, C, labels = case["w"], case["C"], case["labels"]
     n = len(labels)
     name = NAMES[k]
-    tag = case_tag(case)
+    tag = case_tag(orig) + where
     if real["ctor"] != "ok":
-        return Failure(f"{k}:exception:ctor:{real['ctor']}", f"{name} constructor raised {real['ctor']} ({real.get('msg')}) for {tag}", case,
+        return Failure(f"{k}:exception:ctor:{real['ctor']}", f"{name} constructor raised {real['ctor']} ({real.get('msg')}) for {tag}", orig,
                        "a wrapper", real["ctor"])
     items, bulk, shape = real["items"], real["bulk"], real["shape"]
     bad = [(i, v) for i, v in enumerate(items) if isinstance(v, str) or (isinstance(v, dict) and "other" in v)]
     if bad:
         return Failure(f"{k}:exception:item:{bad[0][1] if isinstance(bad[0][1], str) else 'type'}",
-                       f"{name}.getitem_class({bad[0][0]}) raised / returned {bad[0][1]} for {tag}", case, "a label", items)
+                       f"{name}.getitem_class({bad[0][0]}) raised / returned {bad[0][1]} for {tag}", orig, "a label", items)
     if real["others"]:
-        return Failure(f"{k}:others-touched", f"{name} changes something else than the label: {real['others'][0]} for {tag}", case, [], real["others"])
+        return Failure(f"{k}:others-touched", f"{name} changes something else than the label: {real['others'][0]} for {tag}", orig, [], real["others"])
     if not isinstance(shape, int):
-        return Failure(f"{k}:shape", f"{name}.getshape_class() is {shape} for {tag}", case, "(n_classes,)", shape)
+        return Failure(f"{k}:shape", f"{name}.getshape_class() is {shape} for {tag}", orig, "(n_classes,)", shape)
+    # every public spelling of the class-shape query announces the range (getshape_class(), getshape('class'), getdim_class(), getdim('class'))
+    announced = [("getshape_class()", shape)]
+    for form, val in (real.get("forms") or {}).items():
+        if not isinstance(val, int):
+            return Failure(f"{k}:shape-form", f"{name}.{form} is {val} although getshape_class() is ({shape},) for {tag}", orig, shape, val)
+        announced.append((form, val))
     # ---- bulk accessor vs per-sample accessor ----
     if isinstance(bulk, str):
         accepted = bulk == "notImplemented" and k == "pl" and (case["topk"] is not None or case["tau"] != "none")
         if not accepted:
             return Failure(f"{k}:bulk-exception:{bulk}", f"{name}.getall_class() raised {bulk} while every getitem_class(i) succeeds for {tag}",
-                           case, items, bulk)
+                           orig, items, bulk)
         bulk = None
     elif not isinstance(bulk, list) or len(bulk) != n:
-        return Failure(f"{k}:bulk-length", f"{name}.getall_class() has not len(dataset) entries for {tag}", case, n, bulk)
+        return Failure(f"{k}:bulk-length", f"{name}.getall_class() has not len(dataset) entries for {tag}", orig, n, bulk)
     if k in REWRITING:
         if bulk is not None and bulk != items:
-            return Failure(f"{k}:bulk-vs-item", f"{name}.getall_class() differs from [getitem_class(i) for i in range(len)] for {tag}", case, items, bulk)
+            return Failure(f"{k}:bulk-vs-item", f"{name}.getall_class() differs from [getitem_class(i) for i in range(len)] for {tag}", orig, items, bulk)
         for src, vals in (("getitem_class", items), ("getall_class", bulk or [])):
             for i, v in enumerate(vals):
-                if not (isinstance(v, int) and (v == -1 or 0 <= v < shape)):
-                    return Failure(f"{k}:range", f"{name}.{src} yields {v} at {i}, outside 0..{shape - 1} announced by getshape_class (and not -1) for {tag}",
-                                   case, f"-1 or 0 <= l < {shape}", vals)
+                for form, ann in announced:
+                    if not (isinstance(v, int) and (v == -1 or 0 <= v < ann)):
+                        return Failure(f"{k}:range", f"{name}.{src} yields {v} at {i}, outside 0..{ann - 1} announced by {form} (and not -1) for {tag}",
+                                       orig, f"-1 or 0 <= l < {ann}", vals)
     else:
-        f = encoding_oracle(case, items, bulk, shape, name, tag)
+        f = encoding_oracle(case, items, bulk, announced, name, tag, orig)
         if f:
             return f
     if k == "swap":
@@ -596,20 +798,20 @@ def oracle(case, real):
             for i in range(n):
                 if not ap[i] and items[i] != labels[i]:
                     return Failure("swap:apply-flag", f"{name}: getitem_apply({i}) is False but the label changed from {labels[i]} to {items[i]} for {tag}",
-                                   case, labels[i], items[i])
+                                   orig, labels[i], items[i])
     if k == "pl" and case["topk"] is not None:
         seeds = [[ev[2] for ev in c if ev[0] == "seed"] for c in real["calls"]]
         if any(s != [case["seed"] + i] for i, s in enumerate(seeds)):
-            return Failure("pl:seed", f"{name}: per-sample generator is not seeded with seed + idx for {tag}", case,
+            return Failure("pl:seed", f"{name}: per-sample generator is not seeded with seed + idx for {tag}", orig,
                            [[case['seed'] + i] for i in range(n)], seeds)
     # ---- function of constructor arguments and seed ----
     ag = real.get("again")
     if ag is not None:
         if ag.get("ctor"):
-            return Failure(f"{k}:reproducible", f"{name}: second construction with equal arguments raised {ag['ctor']} for {tag}", case, "ok", ag["ctor"])
+            return Failure(f"{k}:reproducible", f"{name}: second construction with equal arguments raised {ag['ctor']} for {tag}", orig, "ok", ag["ctor"])
         if not _same_outputs(ag["items"], items) or not _same_outputs(ag["bulk"], real["bulk"]):
             return Failure(f"{k}:reproducible", f"{name}: equal constructor arguments / seed under a different global RNG state give different labels for {tag}",
-                           case, {"items": items, "bulk": real["bulk"]}, ag)
+                           orig, {"items": items, "bulk": real["bulk"]}, ag)
     return None
 
 
@@ -621,40 +823,42 @@ def _same_outputs(a, b):
     return a == b
 
 
-def encoding_oracle(case, items, bulk, shape, name, tag):
+def encoding_oracle(case, items, bulk, announced, name, tag, orig):
     k, C, labels = case["w"], case["C"], case["labels"]
     if bulk != labels:
-        return Failure(f"{k}:bulk-vs-item", f"{name}.getall_class() (delegated path) does not yield the class indices for {tag}", case, labels, bulk)
+        return Failure(f"{k}:bulk-vs-item", f"{name}.getall_class() (delegated path) does not yield the class indices for {tag}", orig, labels, bulk)
     for i, (y, it) in enumerate(zip(labels, items)):
         if k == "ls" and case["s"] == 0:
             if it != y:
-                return Failure("ls:identity", f"{name}(smoothing=0).getitem_class({i}) is {it}, label {y} for {tag}", case, y, it)
+                return Failure("ls:identity", f"{name}(smoothing=0).getitem_class({i}) is {it}, label {y} for {tag}", orig, y, it)
             continue
         if y == -1:
             continue        # unlabeled marker: nothing to encode
         if k == "ls" and C == 1:
             if not (isinstance(it, dict) and "s" in it):
-                return Failure("ls:binary", f"{name} binary case returns {it} for {tag}", case, "a scalar", it)
+                return Failure("ls:binary", f"{name} binary case returns {it} for {tag}", orig, "a scalar", it)
             q = it["s"]
             okq = -TOL <= q <= 1 + TOL and (q >= 0.5 - TOL if y == 1 else q <= 0.5 + TOL)
             if case["s"] <= 0.99:
                 okq = okq and (q > 0.5 if y == 1 else q < 0.5)
             if not okq:
-                return Failure("ls:binary", f"{name} binary label {y} smoothed to {q} for {tag}", case, "in [0,1] on the side of the label", q)
+                return Failure("ls:binary", f"{name} binary label {y} smoothed to {q} for {tag}", orig, "in [0,1] on the side of the label", q)
             continue
-        if not (isinstance(it, dict) and "v" in it and len(it["v"]) == shape):
-            return Failure(f"{k}:encoding-shape", f"{name}.getitem_class({i}) is not a vector of getshape_class entries for {tag}", case, shape, it)
+        for form, ann in announced:
+            if not (isinstance(it, dict) and "v" in it and len(it["v"]) == ann):
+                return Failure(f"{k}:encoding-shape", f"{name}.getitem_class({i}) is not a vector of as many entries as {form} announces ({ann}) for {tag}",
+                               orig, ann, it)
         v = it["v"]
         if any(x < -TOL for x in v):
-            return Failure(f"{k}:negative", f"{name}.getitem_class({i}) has a negative entry for {tag}", case, ">= 0", v)
+            return Failure(f"{k}:negative", f"{name}.getitem_class({i}) has a negative entry for {tag}", orig, ">= 0", v)
         if abs(sum(v) - 1.) > 1e-5:
-            return Failure(f"{k}:sum", f"{name}.getitem_class({i}) sums to {sum(v)} for {tag}", case, 1.0, v)
+            return Failure(f"{k}:sum", f"{name}.getitem_class({i}) sums to {sum(v)} for {tag}", orig, 1.0, v)
         strict = k == "oh" or case["s"] <= 0.99
         for j, x in enumerate(v):
             if j != y and (x >= v[y] if strict else x > v[y] + TOL):
-                return Failure(f"{k}:argmax", f"{name}.getitem_class({i}): class {y} is not the {'strict ' if strict else ''}argmax for {tag}", case, y, v)
+                return Failure(f"{k}:argmax", f"{name}.getitem_class({i}): class {y} is not the {'strict ' if strict else ''}argmax for {tag}", orig, y, v)
         if k == "oh" and any(x not in (0., 1.) for x in v):
-            return Failure("oh:entries", f"{name}.getitem_class({i}) is not 0/1 for {tag}", case, "0/1", v)
+            return Failure("oh:entries", f"{name}.getitem_class({i}) is not 0/1 for {tag}", orig, "0/1", v)
     return None
 
 
@@ -713,15 +917,21 @@ def gen_soft(rng, n, C, probs):
     return rows
 
 
-def gen_case(rng, kind, big=False):
+def gen_case(rng, kind, big=False, preset=None):
+    """preset = (n, C): parameters for a wrapper that will see n samples with C classes (the top of a stack); no rejection corners there"""
     C = rng.randint(1, 8 if big else 6)
     n = rng.randint(1, 12 if big else 8)
     seed = rng.choice(SEEDS)
     odd = rng.random() < 0.08      # rejection / out-of-domain corner: compared with the model, never judged
     g = rng.randrange(10 ** 6)
+    if preset is not None:
+        n, C = preset
+        odd = False
     c = {"w": kind, "C": C, "g": g}
     if kind == "cg":
         C = c["C"] = rng.choice([1, 2, 3, 4, 4, 6, 6, 6] + ([8] if big else []))
+        if preset is not None:
+            C = c["C"] = preset[1]
         divs = [d for d in range(1, C + 1) if C % d == 0]
         c.update(labels=gen_labels(rng, C, n, False), cpg=rng.choice(divs), shuffle=rng.random() < 0.6,
                  seed=None if rng.random() < 0.1 else seed)
@@ -764,6 +974,8 @@ def gen_case(rng, kind, big=False):
         return c
     if kind == "pl":
         form = rng.choice(["hard", "soft", "thr", "thr", "topk", "topk"])
+        if preset is not None and C < 2:
+            form = "hard"
         if form != "hard" or odd:
             C = c["C"] = max(C, 2)       # an N x 1 table is squeezed to hard labels by the constructor (not modelled)
         labels = gen_labels(rng, C, n, True)
@@ -836,6 +1048,114 @@ def gen_case(rng, kind, big=False):
     raise ValueError(kind)
 
 
+def gen_under_spec(rng, kind, n, C, unl, allow_unl):
+    """(spec, n', C', unl', pyint') of one inner level over n samples / C classes (unl: -1 may occur), in the level's domain; None if the
+    kind does not fit. The primed values are only used to fit the parameters of the levels above (the check itself observes them)."""
+    seed = rng.choice(SEEDS[1:])
+    if kind == "rs":
+        if unl:
+            return None
+        cps, splits = rng.choice([1, 2, 2, 2, 3, C, C + 1]), rng.choice([1, 1, 2, 3])
+        return ({"w": "rs", "cps": cps, "splits": splits, "shuffle": rng.random() < 0.7, "seed": seed}, n, math.ceil(C / cps) * splits, False, False)
+    if kind == "rc":
+        mode = rng.choice(["random", "randperm", "gatherbug"])
+        explicit = rng.random() < 0.8
+        nc = rng.randint(1, 6)
+        return ({"w": "rc", "mode": mode, "nc": nc, "explicit_nc": explicit, "seed": seed, "W": rng.randint(1, n)}, n, nc if explicit else C, False, True)
+    if kind == "cg":
+        if unl:
+            return None
+        return ({"w": "cg", "cpg": rng.choice([d for d in range(1, C + 1) if C % d == 0]), "shuffle": rng.random() < 0.6, "seed": seed}, n, C, False, False)
+    if kind == "swap":
+        return ({"w": "swap", "p": rng.choice([0., 0.25, 0.5, 1., round(rng.random(), 3)]), "seed": seed}, n, C, unl, True)
+    if kind == "semi":
+        if not allow_unl:
+            return None
+        p = rng.choice([0., 0.25, 0.5, 0.7, 1.])
+        return ({"w": "semi", "p": p, "seed": seed}, n, C, unl or int(n * p) >= 1, None)
+    if kind == "ag":
+        return ({"w": "ag", "W": rng.randint(1, n)}, n, C, unl, None)
+    if kind == "ow":
+        classes = gen_labels(rng, C, n, allow_unl)
+        return ({"w": "ow", "classes": classes, "fmt": rng.choice(["list", "tensor"])}, n, C, -1 in classes, True)
+    if kind == "pl":
+        form = rng.choice(["hard", "soft", "thr"] if C >= 2 and allow_unl else ["hard", "soft"] if C >= 2 else ["hard"])
+        spec = {"w": "pl", "hard": None, "soft": None, "thr": None, "topk": None, "tau": "none", "seed": None}
+        if form == "hard":
+            spec["hard"] = gen_labels(rng, C, n, allow_unl)
+        else:
+            spec["soft"] = gen_soft(rng, n, C, rng.random() < 0.3)
+            if form == "thr":
+                spec["thr"] = rng.choice([0., 0.25, 0.5, 0.9])
+        return (spec, n, C, form == "thr" or (form == "hard" and -1 in spec["hard"]), True)
+    if kind in ("plain", "xt"):
+        return ({"w": kind}, n, C, unl, None)
+    if kind == "shuf":
+        return ({"w": "shuf", "seed": seed}, n, C, unl, None)
+    if kind == "sub":
+        idx = [rng.randrange(n) for _ in range(rng.randint(1, n))]
+        return ({"w": "sub", "indices": idx}, len(idx), C, unl, None)
+    if kind == "rep":
+        if n > 5:
+            return None
+        return ({"w": "rep", "rep": 2}, 2 * n, C, unl, None)
+    raise ValueError(kind)
+
+
+COUNT_CHANGERS = ("rs", "rs", "rc")        # the wrappers whose announced class count differs from the wrapped dataset's
+NO_UNLABELED_TOPS = ("cg", "rs", "oh")
+
+
+def gen_stack_case(rng, top, depth=None):
+    """a wrapper of kind `top` on 1..3 other wrappers (label-rewriting ones and neutral ones) on the list dataset. Compositions are part of
+    the property's quantifier: the judged wrapper only sees a KDDataset -- labels per sample / in bulk and a class-shape query --, and
+    what it announces itself must hold for whatever is stacked on it."""
+    allow_unl = top not in NO_UNLABELED_TOPS
+    for _ in range(30):
+        C, n = rng.randint(2, 8), rng.randint(2, 8)
+        labels = gen_labels(rng, C, n, allow_unl and rng.random() < 0.5)
+        st = (n, C, -1 in labels, True)
+        under = []
+        d = depth or rng.choice([1, 1, 2, 2, 2, 3, 3])
+        for j in range(d):
+            for _ in range(12):
+                if j == 0 and d > 1 and rng.random() < 0.6:
+                    kind = rng.choice(COUNT_CHANGERS)
+                else:
+                    kind = rng.choice(REWRITING + NEUTRAL + ("plain", "xt", "swap", "semi"))
+                r = gen_under_spec(rng, kind, st[0], st[1], st[2], allow_unl)
+                if r is not None:
+                    under.append(r[0])
+                    st = (r[1], r[2], r[3], st[3] if r[4] is None else r[4])
+                    break
+        if not under or (top in ENCODING and not st[3]) or (not allow_unl and st[2]):
+            continue
+        c = gen_case(rng, top, preset=(st[0], st[1]))
+        c["labels"], c["C"], c["under"] = labels, C, under
+        return c
+    return gen_case(rng, top)
+
+
+def stack_sweep():
+    """systematic three-level grid: every judged wrapper kind x every kind of middle level x a bottom level that changes the class count"""
+    labels, C, n = [(7 * i + 3) % 6 for i in range(7)], 6, 7
+    bottoms = [({"w": "rs", "cps": 2, "splits": 1, "shuffle": True, "seed": 3}, 3), ({"w": "rs", "cps": 3, "splits": 2, "shuffle": True, "seed": 1}, 4),
+               ({"w": "rc", "mode": "random", "nc": 3, "explicit_nc": True, "seed": 5, "W": 1}, 3),
+               ({"w": "rc", "mode": "randperm", "nc": 4, "explicit_nc": True, "seed": 2, "W": 1}, 4)]
+    middles = [None, {"w": "plain"}, {"w": "xt"}, {"w": "swap", "p": 0.3, "seed": 1}, {"w": "semi", "p": 0.25, "seed": 4}, {"w": "ag", "W": 2},
+               {"w": "shuf", "seed": 1}, {"w": "cg", "cpg": 1, "shuffle": True, "seed": 6}]
+    for bi, (bottom, C2) in enumerate(bottoms):
+        for mi, mid in enumerate(middles):
+            for top in KINDS:
+                if top in ENCODING and (mid is None or mid["w"] != "swap") and bottom["w"] == "rs":
+                    under = [bottom] + ([mid] if mid else []) + [{"w": "swap", "p": 0.5, "seed": 1}]     # python-int labels for the encoders
+                else:
+                    under = [bottom] + ([mid] if mid else [])
+                c = gen_case(random.Random(f"stack:{bi}:{mi}:{top}"), top, preset=(n, C2))
+                c["labels"], c["C"], c["under"] = list(labels), C, [dict(u) for u in under]
+                yield c
+
+
 def sweep_cases():
     """complete small sweeps of the purely arithmetical wrappers"""
     for n in range(1, 9):
@@ -856,6 +1176,10 @@ def sweep_cases():
 
 
 def signature(case, real):
+    if case.get("under"):
+        if real.get("eff") is None:
+            return ("stack", case["w"], tuple(u["w"] for u in case["under"]), real.get("ctor"))
+        return signature({kk: vv for kk, vv in effective(case, real).items() if kk != "under"}, real) + (tuple(u["w"] for u in case["under"]),)
     k = case["w"]
     n, C = len(case["labels"]), case["C"]
     out = (real.get("ctor"), tuple(sorted({v for v in real.get("items", []) if isinstance(v, str)})),
@@ -925,13 +1249,19 @@ class C16(PropertyCheck):
                 "kappadata/wrappers/sample_wrappers/semi_wrapper.py",
                 "kappadata/wrappers/sample_wrappers/label_smoothing_wrapper.py",
                 "kappadata/wrappers/sample_wrappers/one_hot_wrapper.py",
-                "kappadata/utils/one_hot.py", "kappadata/utils/global_rng.py"]
+                "kappadata/utils/one_hot.py", "kappadata/utils/global_rng.py",
+                # the machinery every stacked wrapper answers through (attribute delegation, getshape / getdim, bulk helpers)
+                "kappadata/datasets/kd_wrapper.py", "kappadata/datasets/kd_dataset.py", "kappadata/datasets/kd_subset.py",
+                "kappadata/utils/getall_as_tensor.py"]
     assumptions = [
         "numpy Generator / GlobalRng contracts (hypotheses of the theorems; shapes checked on every recorded draw): permuted(x) is a rearrangement of x, "
         "permutation(k) a permutation of range(k), integers(lo, hi) lies in [lo, hi), random() in [0, 1), multinomial(1, w).argmax() < len(w); "
         "torch.randint(nc) < nc, torch.randperm(nc) a permutation of range(nc)",
         "equal generator seeds give equal draws (not carried by the model; the oracle rebuilds every seeded wrapper under a different global RNG state)",
         "the wrapped dataset is coherent itself: getall_class() equals [getitem_class(i)] and returns a fresh list; labels are ints",
+        "stacks: a wrapper on other wrappers is judged (and put to the model) as that wrapper over the labels / class count the stack below it hands "
+        "out; this is checked level by level on the real objects (a level that is not a coherent int-labelled dataset ends the judgement above it), "
+        "the two encoders only over python-int labels (numpy ints from RandomSuperclass / ClassGroups are refused by their own assertion)",
         "torch argmax returns the first maximal position (rowwise and with dim=1); softmax is strictly monotone on the logit grid in scope, so the "
         "argmax of softmax(row) is the argmax of row; softmax(row).max() > threshold and torch.topk(row, k).indices are handed to the model as oracle values",
         "math.ceil(a / b) on the small non-negative integers in scope is exact ceiling division; int(len * semi_percent) is handed to the model as an integer",
@@ -949,13 +1279,14 @@ class C16(PropertyCheck):
                   "0 < world size <= dataset size), label smoothing yields a non-negative vector summing to one whose maximum is the original class (strict "
                   "for smoothing < 1), one-hot likewise with entries 0/1; for the two encoding wrappers the bulk path yields the class index, which is the "
                   "argmax of the per-sample encoding. Model tied to the code by differential correspondence on recorded draws each run, plus an "
-                  "independent oracle on the real outputs (bulk == per-sample, range vs getshape_class, other items untouched, reproducible for equal "
-                  "seeds under a scrambled global RNG state).")
+                  "independent oracle on the real outputs (bulk == per-sample, range vs every spelling of the class-shape query, other items untouched, "
+                  "reproducible for equal seeds under a scrambled global RNG state), on the plain dataset and on stacks of up to four wrappers.")
     level_note = ("trusted: Lean kernel + standard axioms; correspondence harness; generator contracts are hypotheses; 'function of the constructor "
                   "arguments and seed' is carried by the model's signature (arguments + tape, no other input) and checked dynamically by the oracle; "
                   "softmax/topk numerics enter as oracle values; 'other data untouched' is a structural check on the class dictionaries plus the oracle")
 
     n_random = {"quick": 420, "thorough": 9000}     # per kind
+    n_stacks = {"quick": 110, "thorough": 2500}     # per kind: the judged wrapper on 1..3 other wrappers
 
     def cases(self):
         out = []
@@ -964,11 +1295,14 @@ class C16(PropertyCheck):
             for p in sorted(cdir.glob("*.json")):
                 out.append(json.loads(p.read_text()))
         ncorp = len(out)
-        sweep = list(sweep_cases())
+        sweep = list(sweep_cases()) + list(stack_sweep())
         out += sweep
         for k in KINDS:
             for i in range(self.n_random[self.tier]):
                 out.append(gen_case(self.rng, k, big=(self.tier == "thorough" and i % 3 == 0)))
+        for k in KINDS:
+            for i in range(self.n_stacks[self.tier]):
+                out.append(gen_stack_case(self.rng, k))
         return out, ncorp, len(sweep)
 
     def correspond(self):
@@ -979,36 +1313,58 @@ class C16(PropertyCheck):
                     "(layouts <=8 samples <=6 classes incl. -1 where the wrapper admits it; thorough: a third <=12 samples <=8 classes; group sizes = divisors, "
                     "superclass sizes 1..C+1, splits 1..4, p / smoothing on a grid + random, hard / soft / thresholded / top-k (tau none|inf|finite) tables "
                     "with ties and threshold = 1/C corners, seeds incl. None (global state), ~8% rejection corners); numpy / GlobalRng / torch draws recorded "
-                    "and replayed into the model; distinct = (kind, size class, parameters, outcome)")
+                    "and replayed into the model; distinct = (kind, size class, parameters, outcome)"
+                    f" + stacks: a three-level grid (every kind x 8 middle levels x 4 class-count-changing bottoms, part of the sweep count) and "
+                    f"{self.n_stacks[self.tier]} random stacks per kind (the judged wrapper on 1..3 levels drawn from the eight rewriting wrappers, a "
+                    "pass-through KDWrapper subclass, XTransformWrapper, Shuffle / Subset / RepeatWrapper; bottom level biased to the wrappers that change "
+                    "the class count); every rewriting level of a stack is judged against the observed dataset it wraps, the label range against every "
+                    "spelling of the class-shape query (getshape_class(), getshape('class'), getdim_class(), getdim('class'))")
         res.exhaustive = False
         for key, what in structural():
             res.failures.append(Failure(key, "structural: " + what, {"kind": "structural", "key": key}, "class accessors only, bulk next to per-sample", what))
         res.bump("structural:" + ("ok" if not res.failures else "broken"))
         reals = [run_real(c) for c in cases]
-        answers = self.driver.run([model_request(c, r) for c, r in zip(cases, reals)])
-        for case, real, ans in zip(cases, reals, answers):
+        # a stack case is put to the model as the judged wrapper over the labels / class count handed out by the stack below it
+        ecases = [effective(c, r) for c, r in zip(cases, reals)]
+        modelled = [i for i, r in enumerate(reals) if not r["ctor"].startswith("under:")]
+        got = self.driver.run([model_request(ecases[i], reals[i]) for i in modelled])
+        answers = [None] * len(cases)
+        for i, a in zip(modelled, got):
+            answers[i] = a
+        for orig, case, real, ans in zip(cases, ecases, reals, answers):
             res.cases += 1
-            res.nontrivial.add(signature(case, real))
+            res.nontrivial.add(signature(orig, real))
             k = case["w"]
             res.bump(f"kind={k}")
             res.bump(f"{k}:ctor={real['ctor']}")
+            if orig.get("under"):
+                res.bump(f"stack:depth={len(orig['under']) + 1}")
+                res.bump(f"stack:directly-on={orig['under'][-1]['w']}")
+                if any(u["w"] in ("rs", "rc") for u in orig["under"][:-1]):
+                    res.bump("stack:class-count-changed-two-or-more-levels-below")
+            if ans is None:
+                # the stack below the judged wrapper is not a coherent int-labelled dataset: its own levels are still judged
+                f = oracle(orig, real)
+                if f is not None and len(res.failures) < 60 and (not any(g.key == f.key for g in res.failures) or len(res.failures) < 5):
+                    res.failures.append(f)
+                continue
             if real["ctor"] == "ok":
                 res.bump(f"{k}:bulk={'list' if isinstance(real['bulk'], list) else real['bulk']}")
                 for e in {v for v in real["items"] if isinstance(v, str)}:
                     res.bump(f"{k}:item={e}")
             res.bump(f"{k}:{'in' if in_domain(case) else 'out-of'}-domain")
             if "error" in ans:
-                res.disagreements.append(Disagreement(case, ans, None, "driver error"))
+                res.disagreements.append(Disagreement(orig, ans, None, "driver error"))
                 continue
             diff = compare(case, ans, real)
             if diff is not None and len(res.disagreements) < 50:
-                res.disagreements.append(Disagreement(case, diff[0], diff[1]))
-            f = oracle(case, real)
+                res.disagreements.append(Disagreement(orig, diff[0], diff[1]))
+            f = oracle(orig, real)
             if f is not None and len(res.failures) < 60:
                 if not any(g.key == f.key for g in res.failures) or len(res.failures) < 5:
                     res.failures.append(f)
             if len(res.samples) < 5 and real["ctor"] == "ok" and in_domain(case) and k not in [s["case"]["w"] for s in res.samples] \
-                    and k in ("ag", "cg", "pl", "rs", "semi"):
+                    and k in ("ag", "cg", "pl", "rs", "semi") and not orig.get("under"):
                 res.samples.append({"case": {kk: vv for kk, vv in case.items() if kk != "soft"}, "items": real["items"], "bulk": real["bulk"],
                                     "shape": real["shape"]})
         res.observations += observations()
@@ -1037,9 +1393,9 @@ class C16(PropertyCheck):
             if f:
                 out.append(f)
         rng = random.Random(self.seed + 1616)
-        it = iter(list(sweep_cases()))
+        it = iter(list(sweep_cases()) + list(stack_sweep()))
         while not out and time.time() - t0 < budget_s:
-            c = next(it, None) or gen_case(rng, rng.choice(KINDS))
+            c = next(it, None) or (gen_stack_case if rng.random() < 0.4 else gen_case)(rng, rng.choice(KINDS))
             f = self.replay_input(c)
             if f:
                 out.append(f)
